@@ -228,3 +228,74 @@ Theorem C04_code_filter_tables_ED :
   ltac:(let t := type of C04_code_filter_tables_edit_distance in exact t).
 Proof. exact C04_code_filter_tables_edit_distance. Qed.
 Print Assumptions C04_code_filter_tables_ED.
+
+
+(* ---- float thresholds of the integer-valued measures (source repair in filter_utils.py: the four
+   formulas read the threshold through int(floor(.)) under EDIT_DISTANCE and int(ceil(.)) under
+   OVERLAP).  `le_thr d f` / `ge_thr o f` / `thr_nonneg f` / `thr_pos f` are Python's own exact
+   comparisons  d <= f,  o >= f,  not (f < 0),  not (f <= 0)  on the double f. *)
+From SSJ Require Import ThresholdNorm ThresholdNormFloat ThresholdNormGen ThresholdNormApi.
+(* the regenerated formulas with a finite float threshold are the formulas at floor f / ceil f *)
+Theorem formulas_normalise_edit_distance_float :
+  forall q f, f_is_finite f = true -> fp_agree (edpf q f) (edp q (f_floor f)).
+Proof. exact fp_agree_ed_float. Qed.
+Theorem formulas_normalise_overlap_float :
+  forall f q, f_is_finite f = true -> fp_agree (ovpf f q) (ovp (f_ceil f) q).
+Proof. exact fp_agree_ov_float. Qed.
+Print Assumptions formulas_normalise_edit_distance_float.
+Print Assumptions formulas_normalise_overlap_float.
+
+Theorem C04_edit_distance_float :
+  forall tk f ae s t, f_is_finite f = true -> 1 <= qq tk -> le_thr (lev s t) f ->
+  share (qgram_bag tk s) (qgram_bag tk t) = true ->
+  size_filter_pair (edpf (qq tk) f) ae (len (qgram_bag tk s)) (len (qgram_bag tk t)) = false /\
+  prefix_filter_pair (edpf (qq tk) f) ae (qgram_bag tk s) (qgram_bag tk t) = Some false /\
+  position_filter_pair (edpf (qq tk) f) ae (qgram_bag tk s) (qgram_bag tk t) = Some false.
+Proof. exact ThresholdNormFloat.C04_edit_distance_float. Qed.
+Print Assumptions C04_edit_distance_float.
+
+Theorem C04_overlap_measure_pair_float :
+  forall l r f q ae, f_is_finite f = true -> NoDup l -> NoDup r -> thr_pos f ->
+  ge_thr (overlap_sets l r) f -> len r <= maxsizeZ ->
+  size_filter_pair (ovpf f q) ae (len l) (len r) = false /\
+  prefix_filter_pair (ovpf f q) ae l r = Some false /\
+  position_filter_pair (ovpf f q) ae l r = Some false.
+Proof. exact ThresholdNormFloat.C04_overlap_measure_pair_float. Qed.
+Print Assumptions C04_overlap_measure_pair_float.
+
+(* on the statement the harness evaluates (fp_qualifies / model_filter_pair) *)
+Theorem C04_filter_pair_overlap_float :
+  ltac:(let t := type of filter_pair_safe_overlap_float in exact t).
+Proof. exact filter_pair_safe_overlap_float. Qed.
+Theorem C04_filter_pair_edit_distance_float :
+  ltac:(let t := type of filter_pair_safe_edit_distance_float in exact t).
+Proof. exact filter_pair_safe_edit_distance_float. Qed.
+Print Assumptions C04_filter_pair_overlap_float.
+Print Assumptions C04_filter_pair_edit_distance_float.
+
+(* on the GENERATED filter_pair code: the call with the float threshold returns a bool (no
+   TypeError), the one the call with floor f / ceil f returns, and qualifying pairs are kept *)
+Theorem generated_filter_pair_overlap_float_safe :
+  ltac:(let t := type of filter_pair_gen_overlap_float_safe in exact t).
+Proof. exact filter_pair_gen_overlap_float_safe. Qed.
+Theorem generated_filter_pair_edit_distance_float_safe :
+  ltac:(let t := type of filter_pair_gen_ed_float_safe in exact t).
+Proof. exact filter_pair_gen_ed_float_safe. Qed.
+Theorem generated_position_filter_pair_float_is_int_call_ed :
+  ltac:(let t := type of position_filter_pair_gen_ed_float_int in exact t).
+Proof. exact position_filter_pair_gen_ed_float_int. Qed.
+Theorem generated_position_filter_pair_float_is_int_call_overlap :
+  ltac:(let t := type of position_filter_pair_gen_overlap_float_int in exact t).
+Proof. exact position_filter_pair_gen_overlap_float_int. Qed.
+Print Assumptions generated_filter_pair_overlap_float_safe.
+Print Assumptions generated_filter_pair_edit_distance_float_safe.
+
+(* API level: filter_tables with a float threshold = the call with ceil f / floor f; all specs *)
+Theorem C04_api_filter_tables_overlap_float :
+  ltac:(let t := type of C04_filter_tables_overlap_float in exact t).
+Proof. exact C04_filter_tables_overlap_float. Qed.
+Theorem C04_api_filter_tables_edit_distance_float :
+  ltac:(let t := type of C04_filter_tables_edit_qgram_float in exact t).
+Proof. exact C04_filter_tables_edit_qgram_float. Qed.
+Print Assumptions C04_api_filter_tables_overlap_float.
+Print Assumptions C04_api_filter_tables_edit_distance_float.
